@@ -205,8 +205,8 @@ def worker(arg):
 
 def check(tier, seed):
     t = pc.trees("plain", "san")
-    n = 4000 if tier == "quick" else 60000
-    nsan = 600 if tier == "quick" else 9000
+    n = 4000 if tier == "quick" else 24000
+    nsan = 600 if tier == "quick" else 3000
     res = Result("exploration")
     res.rule = RULE
     base = seed * 1000000 + (0 if tier == "quick" else 100000) + 500000
